@@ -102,7 +102,7 @@ def rules_save(run, P='C06', ids=('.1', '.2', '.3')):
             if isinstance(e, ast.Call) and isinstance(e.func, ast.Name) and e.func.id in ('list', 'sorted', 'tuple') and e.args:
                 origin += [strip_cast(e.args[0])] + q.local_origin(F, strip_cast(e.args[0]))
         # reaching definition of the stored name: the assignment in the same block
-        blk = node._parent.body
+        blk = q.block_of(node)
         inter = None
         for st in blk[:blk.index(node)]:
             if isinstance(st, ast.Assign) and any(isinstance(x, ast.Name) and isinstance(t, ast.Name) and x.id == t.id
